@@ -4,6 +4,8 @@ package coresim
 //
 //   {"do":"disarm","point":P}  stops gating P (later arrivals pass) but keeps the goroutines already parked
 //                              there parked until a "release" step.
+//   {"do":"mutepoint","point":P}  hook point P is not recorded any more (it can still be gated): keeps the cost of a
+//                              point that sits in a timing-sensitive place of the core next to nothing.
 //   {"do":"pendingcalls"}  records Pending{n, started}: the number of goroutines of the in-process
 //                          core that sit in callable.(*Call).Start's goroutine (a started hook call
 //                          whose result has not been collected yet and which has not been cancelled)
@@ -13,10 +15,35 @@ import (
 	"context"
 	"runtime"
 	"strings"
+	"sync"
 	"time"
 )
 
+var (
+	mutedMu sync.Mutex
+	muted   = map[*Runner]map[string]bool{}
+)
+
 func init() {
+	ExtraSteps["mutepoint"] = func(r *Runner, st *Step, ctx context.Context) {
+		mutedMu.Lock()
+		defer mutedMu.Unlock()
+		m, ok := muted[r]
+		if !ok {
+			m = map[string]bool{}
+			muted[r] = m
+			inner := r.Sched.OnPoint
+			r.Sched.OnPoint = func(point string, kv []interface{}) {
+				mutedMu.Lock()
+				skip := m[point]
+				mutedMu.Unlock()
+				if !skip && inner != nil {
+					inner(point, kv)
+				}
+			}
+		}
+		m[st.Point] = true
+	}
 	ExtraSteps["disarm"] = func(r *Runner, st *Step, ctx context.Context) {
 		r.Sched.Ungate(st.Point)
 		r.mu.Lock()
